@@ -167,7 +167,16 @@ fn gen_statement(rng: &mut Rng, env: &Env) -> (String, &'static str, bool) {
     ];
     let target = targets[rng.usize(targets.len())].clone();
     let fmt = if target.ends_with(".csv") { "CSV" } else { "PARQUET" };
-    let sel = ["SELECT 1 AS a", "SELECT * FROM metrics", "SELECT value_i64 FROM metrics WHERE timestamp >= 0"][rng.usize(3)];
+    // the inner query also comes without any mention of the metrics table (catalog lookups, constants): a route
+    // chosen by what the text mentions must not lead around the read-only planning
+    let sel = [
+        "SELECT 1 AS a",
+        "SELECT * FROM metrics",
+        "SELECT value_i64 FROM metrics WHERE timestamp >= 0",
+        "SELECT table_name FROM information_schema.tables",
+        "SELECT name, value FROM information_schema.df_settings",
+        "VALUES (1), (2)",
+    ][rng.usize(6)];
     let (sql, kind, reject): (String, &'static str, bool) = match rng.below(14) {
         0 | 1 => (format!("COPY ({}) TO '{}' STORED AS {}", sel, target, fmt), "copy-to", true),
         2 => (format!("COPY metrics TO '{}' STORED AS {}", target, fmt), "copy-to", true),
@@ -176,7 +185,15 @@ fn gen_statement(rng: &mut Rng, env: &Env) -> (String, &'static str, bool) {
         5 => (format!("CREATE EXTERNAL TABLE ext_{} STORED AS PARQUET LOCATION 'memory://verif/{}'", rng.below(50), existing), "create-external-table", true),
         6 => ("DROP TABLE metrics".to_string(), "drop-table", true),
         7 => (format!("INSERT INTO metrics {}", "SELECT * FROM metrics"), "insert", true),
-        8 => (format!("SET datafusion.execution.batch_size = {}", 1 + rng.below(4)), "set", true),
+        8 => (
+            match rng.below(3) {
+                0 => format!("SET datafusion.execution.batch_size = {}", 1 + rng.below(4)),
+                1 => "SET datafusion.catalog.information_schema = false".to_string(),
+                _ => "SET datafusion.sql_parser.enable_ident_normalization = false".to_string(),
+            },
+            "set",
+            true,
+        ),
         9 => (format!("EXPLAIN ANALYZE COPY ({}) TO '{}' STORED AS {}", sel, target, fmt), "explain-analyze-copy", true),
         10 => (format!("EXPLAIN CREATE TABLE evil_e AS {}", sel), "explain-ddl", false),
         11 => (format!("{}; COPY ({}) TO '{}' STORED AS {}", sel, sel, target, fmt), "multi-statement", true),
